@@ -279,7 +279,10 @@ func (u *unmGen) tagFor(t reflect.Type) string {
 			e = &EFilter{E: e, Preds: []Expr{num("1")}}
 		}
 	default:
-		switch r.Intn(8) {
+		switch r.Intn(9) {
+		case 8:
+			// a bound node-set whose stored order is not document order, used bare
+			e = &EVar{RawQ{Local: pick(r, []string{"u", "u", "w", "v"})}}
 		case 6, 7:
 			// a node-set whose stored order is reverse document order: the conversions use the first node in DOCUMENT order
 			e = &EPath{Steps: []*Stp{{Axis: pick(r, []string{"preceding-sibling", "preceding", "ancestor-or-self", "ancestor"}), Test: NodeTest{Kind: pick(r, []string{"node", "any", "text"})}}}}
@@ -440,7 +443,7 @@ func famC19(rn *Runner) {
 	ndocs := rn.Scale(10, 120)
 	for di := 0; di < ndocs && !rn.TooMany(); di++ {
 		d := rn.genDoc(rn.Scale(40, 100))
-		env := stdEnv()
+		env := envShuffled(rn, d) // $u: nodes in a random order, $w: reverse document order, $v: document order
 		u := &unmGen{r: rn.R.Fork(), g: NewExprGen(rn.R.Fork(), d, env)}
 		settings := env.Settings(d.Root)
 		for i := 0; i < rn.Scale(250, 700) && !rn.TooMany(); i++ {
